@@ -199,7 +199,7 @@ def run_fs(desc):
 
         @seed(desc['seed'])
         @util.hyp_settings(max(10, desc['n']), shrink=False)
-        @given(pat, st.sampled_from(cfgs), st.integers(0, 2))
+        @given(pat, st.sampled_from(cfgs), st.integers(0, 4))
         def test(segs, cfg, api):
             segs = tuple(s for s in segs if s)
             if not segs:
@@ -213,6 +213,15 @@ def run_fs(desc):
                         res = G.glob(text, flags=fl, root_dir=root)
                     elif api == 1:
                         res = list(G.iglob(text, flags=fl, root_dir=root))
+                    elif api == 3:
+                        # bytes patterns with the root given as a directory descriptor (the scan yields str names there)
+                        fd_ = os.open(root, os.O_RDONLY)
+                        try:
+                            res = [os.fsdecode(x) for x in G.glob(os.fsencode(text), flags=fl, dir_fd=fd_)]
+                        finally:
+                            os.close(fd_)
+                    elif api == 4:
+                        res = [os.fsdecode(x) for x in G.glob(os.fsencode(text), flags=fl, root_dir=os.fsencode(root))]
                     else:
                         if cfg.get('matchbase'):
                             return
